@@ -7,7 +7,7 @@
    on the implementation (getters before/after). *)
 From Coq Require Import ZArith Bool List.
 Import ListNotations.
-From Verif Require Import Model.Val Gen.Src_Z3 Model.Z3Model Proofs.Z3P Proofs.Z3P2 Proofs.Z3P3 Proofs.Z3P4.
+From Verif Require Import Model.Val Gen.Src_Z3 Model.Z3Model Proofs.Z3P Proofs.Z3P2 Proofs.Z3P3 Proofs.Z3P4 Proofs.Z3P5 Proofs.Z3P6 Proofs.Z3P7.
 Open Scope Z_scope.
 
 Theorem C10_z3_decisions : forall ins fs a, gen_z3 ins = Ok fs -> sat fs a = true ->
@@ -48,6 +48,34 @@ Print Assumptions C10_z3_slots_monitor.
 Theorem C10_z3_slots_monitor_sound : forall ins fs a, gen_z3 ins = Ok fs -> sat fs a = true -> slots_ok ins a = true.
 Proof. exact slots_monitor_sound. Qed.
 Print Assumptions C10_z3_slots_monitor_sound.
+
+(* worker capacity is never exceeded, at any instant, in any satisfying assignment — for instances whose
+   are_dependent pairs are connected through offered parents (wf_inst) and workers with one key per
+   resource name and 0 <= available <= total (wf_worker); demand = what the scheduler reckons (fastest
+   compatible strategy), capacity = quantity available when schedule() was called *)
+Theorem C10_z3_capacity : forall ins fs a, gen_z3 ins = Ok fs -> sat fs a = true -> wf_inst ins ->
+  forall k w, In (k, w) (indexed_from 0 (i_workers ins)) -> wf_worker w ->
+  forall r tau, load ins a k w r tau <= avail w r.
+Proof. exact c10_z3_capacity. Qed.
+Print Assumptions C10_z3_capacity.
+Theorem C10_z3_capacity_monitor : forall ins a, capacity_ok ins a = true <-> capacity_at_starts ins a.
+Proof. exact capacity_ok_iff. Qed.
+Print Assumptions C10_z3_capacity_monitor.
+Theorem C10_z3_capacity_starts_suffice : forall ins a k w r, 0 <= avail w r -> (forall t, In t (i_tasks ins) -> 0 <= demand w t r) ->
+  (forall t, In t (i_tasks ins) -> load ins a k w r (t_start a t) <= avail w r) ->
+  forall tau, load ins a k w r tau <= avail w r.
+Proof. exact starts_suffice. Qed.
+Print Assumptions C10_z3_capacity_starts_suffice.
+Theorem C10_z3_capacity_monitor_sound : forall ins fs a, gen_z3 ins = Ok fs -> sat fs a = true -> wf_inst ins ->
+  (forall w, In w (i_workers ins) -> wf_worker w) -> capacity_ok ins a = true.
+Proof. exact capacity_monitor_sound. Qed.
+Print Assumptions C10_z3_capacity_monitor_sound.
+(* tasks related by are_dependent get no exclusivity row: they are ordered by the precedence rows *)
+Theorem C10_z3_dependent_ordered : forall ins fs a, gen_z3 ins = Ok fs -> sat fs a = true -> wf_inst ins ->
+  forall x y, anc ins x y -> truth a (VPlaced (zt_id y)) = true ->
+  truth a (VPlaced (zt_id x)) = true /\ t_start a y >= t_start a x + zt_remaining x.
+Proof. exact anc_order. Qed.
+Print Assumptions C10_z3_dependent_ordered.
 
 (* FINDINGS FZ3-A / FZ3-B: "returns normally" is false — reachable inputs on which building the system raises *)
 Theorem C10_z3_returns_normally_refuted :
